@@ -90,7 +90,8 @@ def gen_program(rng, names_bias):
     return {"base": rng.choice(["pool", "pool", "sync"]), "workers": rng.choice([1, 2, 3]),
             "basename": 1 if (names_bias or rng.random() < 0.5) else 0, "layers": layers,
             "bindpos": rng.randrange(depth + 1), "flat": 1 if rng.random() < (0.5 if kind == 4 else 0.2) else 0,
-            "kind": kind, "subs": subs, "attrs": bool(kind == 3 and rng.random() < 0.5)}
+            "kind": kind, "subs": subs, "attrs": bool(kind == 3 and rng.random() < 0.5),
+            "derive_junk": rng.choice([0, 0, 1, 1])}
 
 
 def nontrivial(task, result):
